@@ -1,7 +1,7 @@
 /* UNIT
 {
  "id": "PP.peekparen.bnd",
- "file": "pp.c", "function": "peekparen",
+ "file": "pp.c", "function": "peekparen", "also_functions": ["nextinto", "ctxnext", "ctxpush"],
  "properties": {"C12": "contract", "C19": "safety"},
  "mode": "harness",
  "replace_calls": {"directive": "rec_directive"},
